@@ -98,6 +98,9 @@ def c19_fastcc(E, templates=(("T6", ("EX_A",)), ("T2", ("EX_A", "R1")))):
     Completeness (every non-blocked reaction kept) depends on which optimal solution the solver returns;
     it is evaluated on the concrete GLPK replays only (known finding, DESIGN section 6)."""
     m, tid = _model(E, templates)
+    direction = E.pick("objective_direction", ["max", "min"])
+    m.objective_direction = direction
+    E.note(direction=direction)
     lp = fba_lp(m)
     before = observe(m)
     res = fastcc(m)
@@ -121,7 +124,7 @@ def c19_fastcc(E, templates=(("T6", ("EX_A",)), ("T2", ("EX_A", "R1")))):
                 continue
             v = lp.fresh_point(E, "any_" + r.id)
             E.prove(z3.Implies(lp.feasible(v), z3.And(v[r.id] < rv(1e-3), v[r.id] > rv(-1e-3))), "non-blocked-reaction-kept",
-                    reaction=r.id, what="fastcc-completeness")
+                    reaction=r.id, what="fastcc-completeness", reversible=bool(r.reversibility))
 
 
 HARNESSES = [
